@@ -222,6 +222,17 @@ pub fn all() -> Vec<Prop> {
             shards_thorough: 16,
         },
         Prop {
+            id: "C17",
+            run: props::errors::run_c17,
+            replayers: props::errors::replayers,
+            rule: "Enumerated decision table, not sampled: 47 fallible public routines (QuantileExt x9, Quantile1dExt x2, SummaryStatisticsExt x15, DeviationExt x10, EntropyExt x3, CorrelationExt x2, five strategies' from_array, GridBuilder::from_array) x first-input scenario {non-empty, empty 1-D, empty through a zero-length axis at a generated position, 0-D} x second-argument scenario {same shape, different shape with equal element count, different shape, different rank, emptiness differs; for axis weights: equal / longer / shorter / empty} x q scenario {valid (incl. empty request list), q<0 (-0.1, -5e-324, -1, -inf), q>1 (1+ulp, 1.5, 2, +inf), several invalid in different positions} x {float, integer} element type x 3 layouts (C, F, stepped+reversed view); every populated cell is instantiated with 24 (quick) / 1200 (thorough) seeded shape instances. Oracle: the expected cell value derived from the doc comments (InvalidQuantile(first offending q) before anything else; quantiles: EmptyInput <=> chosen axis has length 0; guarded routines: EmptyInput <=> first input empty, else ShapeMismatch{first_shape, second_shape} with payload compared; weighted_sum(_axis): no emptiness error), never a panic. Cells without documented behaviour are left out (cov with zero observations, GridBuilder with zero columns, constant strategy input). Distinct by hash of the instance. Non-trivial: an instance whose expected outcome is an error.",
+            assumptions: COMMON_ASSUMPTIONS,
+            profiles_quick: BOTH,
+            profiles_thorough: BOTH,
+            shards_quick: 8,
+            shards_thorough: 16,
+        },
+        Prop {
             id: "C18",
             run: props::bulk::run_c18,
             replayers: props::bulk::replayers,
